@@ -1,17 +1,49 @@
-"""Per-property configuration of bin/check: case counts (quick, thorough), the Gen modules the property's
-theorems are stated about, the rule by which a case counts as non-trivial, trusted base and assumptions."""
+"""Per-property configuration of bin/check and source of MANIFEST.json (bin/mkmanifest):
+case counts (quick, thorough), the Gen modules the property's theorems are stated about, the rule by which a
+case counts as non-trivial, level text, trusted base and assumptions."""
+
+COMMON_NOTE = ("Trusted: Lean 4.33 kernel, Mathlib v4.33, rs2lean's Rust-subset mapping (its output is executed against the real code), "
+               "harness/driver glue. Theorems are over exact arithmetic / abstract orders: binary64 rounding is not modelled.")
 
 PROPS = {
     "C05": {
+        "title": "Evaluation, subdivision, sections and reversal describe the same curve",
         "gen_modules": ["Consts", "Basis", "Section"],
         "corr_n": (20000, 400000),
         "search_n": (20000, 400000),
+        "technique": "Lean 4 theorems over definitions translated from the Rust source on every run + exact correspondence",
+        "level_text": "Every identity of the property (basis = de Casteljau, exact ends, both halves of subdivide, section and nested subsection points, "
+                      "section control points define the same cubic incl. a=b and a=1, reversal) is a Lean theorem for all control points and parameters over any ordered field, "
+                      "about definitions that rs2lean regenerates from basis.rs / subdivide.rs / section.rs / curve.rs on every run; lifted to 2-D/3-D component-wise. "
+                      "The same generated definitions are executed (exact rationals and Float) against the real functions in 1-D/2-D/3-D.",
+        "level_note": "Exact arithmetic: binary64 rounding is not modelled (agreement is exact on the dyadic stream and within 64-256 ulp of the polygon size on reals). "
+                      "BezierPath::reversed is checked on the real code only (search), not yet a theorem. " + COMMON_NOTE,
         "rule": "corr: random operation (basis/point_at_pos/de_casteljau4, subdivide, section incl. control points, subsection, reverse, t_for_t and inverse) "
                 "in 1-D/2-D/3-D, alternating a dyadic stream (coordinates k/8 in [-64,64], parameters k/16, sections with 1-a and b-a powers of two: "
                 "model and implementation must agree exactly) and a real stream (tolerance 64..256 units of 2^-52 x control polygon size); "
                 "boundary parameters 0, 1, a=b, a=1 are forced in. search: the identities of the property on the real code "
                 "(zero tolerance on the dyadic stream). Non-trivial: parameter not 0/1 (section: a<b) and curve not closed onto its start; distinct by input bits.",
         "trusted_base": ["model of BezierPath::reversed is not translated: the path-level identities are checked on the real code by search only"],
-        "assumptions": ["theorems are over exact arithmetic (any field of characteristic 0); binary64 rounding is bounded by the real-stream tolerance, not proved"],
+        "assumptions": ["theorems are over exact arithmetic (any ordered field); binary64 rounding is bounded by the real-stream tolerance, not proved"],
+    },
+    "C18": {
+        "title": "The 1-D space index and the bounding-box sweeps are exact",
+        "gen_modules": ["Bounds"],
+        "props_modules": ["C18"],
+        "corr_n": (20000, 400000),
+        "search_n": (20000, 400000),
+        "technique": "Lean 4 theorems (permutation of the specified pair list; query specs under a construction invariant) over hand models + exhaustive exact correspondence",
+        "level_text": "sweep_self / sweep_against: Lean theorems that, for inputs sorted by min x, the model's output is a permutation of exactly the overlapping pairs "
+                      "(each once), for every list of boxes over any linear order, with the overlap test being the definition regenerated from BoundingBox::overlaps "
+                      "and proved equivalent to closed-interval intersection. Space1D: executable model of from_data and the queries. "
+                      "Models are tied to the code by exhaustive exact correspondence (every collection of <=4 ranges on a 5-point grid, <=3 (quick) / <=4 (thorough) boxes, "
+                      "incl. touching, nested, identical, zero-width) plus random collections up to 200 items.",
+        "level_note": "The sweep and Space1D models are hand-written (loops with mutation are outside the translator's subset); their tie is the exact correspondence run. "
+                      "Binary-search insertion position is abstracted (theorems do not depend on it). NaN and -0 are outside the model. " + COMMON_NOTE,
+        "rule": "corr/search: exhaustive enumeration of small collections on an integer grid (ranges with end points in {0..4}, boxes with x in {0..3}, y in {0..1}) "
+                "followed by random collections (0..200 items, real or snapped coordinates, zero-width items forced in); every query point on the half-grid, every query region. "
+                "Non-trivial: at least two items overlap, touch or nest; distinct by input.",
+        "trusted_base": ["hand-written models Model/Sweep.lean, Model/Space1D.lean (tied by correspondence, not by translation)"],
+        "assumptions": ["inputs are NaN-free; -0 and +0 are identified (total_cmp distinguishes them, the model does not)"],
     },
 }
